@@ -5,7 +5,7 @@
 EXTENDS Naturals, Sequences, TLC, TraceIO, SequencesExt
 CONSTANTS BigIds, BigLens, MidIds, MidLens, D1, D2, D3
 
-Starts == <<"fresh", "onebyte", "twobyte", "legacy", "um_onebyte", "um_twobyte", "um_legacy">>
+Starts == <<"fresh", "onebyte", "twobyte", "legacy", "um_onebyte", "um_twobyte", "um_legacy", "um_dup">>
 Ops(ids, lens) ==
   SetToSeq({ [op |-> "set", id |-> id, len |-> n, src |-> 0] : id \in ids, n \in lens }
            \cup { [op |-> "del", id |-> id, len |-> 0, src |-> 0] : id \in ids })
@@ -25,7 +25,7 @@ Mid == Ops(MidIds, MidLens)
 S(id, n) == [op |-> "set", id |-> id, len |-> n]
 D(id) == [op |-> "del", id |-> id, len |-> 0]
 F(id, src) == [op |-> "setfrom", id |-> id, len |-> 0, src |-> src]
-Small == <<S(1, 1) @@ [src |-> 0], S(1, 17) @@ [src |-> 0], S(2, 0) @@ [src |-> 0], S(2, 4) @@ [src |-> 0], S(0, 4) @@ [src |-> 0], S(16, 1) @@ [src |-> 0],
+Small == <<S(5, 1) @@ [src |-> 0], D(5) @@ [src |-> 0], S(1, 1) @@ [src |-> 0], S(1, 17) @@ [src |-> 0], S(2, 0) @@ [src |-> 0], S(2, 4) @@ [src |-> 0], S(0, 4) @@ [src |-> 0], S(16, 1) @@ [src |-> 0],
            D(1) @@ [src |-> 0], D(2) @@ [src |-> 0], D(0) @@ [src |-> 0], F(2, 1), F(1, 2), S(1, 4) @@ [src |-> 0]>>
 Raw == Upto(Big, D1, "big") \o (IF D2 > D1 THEN CasesFor(Mid, D2, "mid") ELSE <<>>) \o (IF D3 > D2 THEN CasesFor(Small, D3, "small") ELSE <<>>)
 CaseSeq == [i \in 1..Len(Raw) |-> Raw[i] @@ [case |-> i]]
